@@ -310,7 +310,7 @@ class List(Expression):
         if any(v is None for v in values):
             return None
         else:
-            return np.prod(values)
+            return int(np.prod(values))
 
 
 class Args(Expression):
